@@ -16,8 +16,34 @@ Definition check_C12 := with_monitor holds_C12.
 Definition check_C13 := with_monitor holds_C13.
 Definition check_C14 := with_monitor holds_C14.
 Definition check_C15 := with_monitor holds_C15.
-Definition check_C17 := with_monitor holds_C17.
 Definition check_C18 := with_monitor holds_C18.
+
+(* C17, "a provider that has been built is unaffected by later changes to the collection": a case may come
+   with a twin in which the collection calls after the Build are left out; the first provider's part of both
+   traces (its Build and every later step on it) must be equivalent *)
+Definition is_collection_op (o : op) : bool :=
+  match o with
+  | OAdd _ | ORemove _ | ORemoveKeyed _ _ | OModules _ | OContains _ | OContainsKeyed _ _ | OCount | OSlice => true
+  | _ => false
+  end.
+Fixpoint provider_steps (built : bool) (ops : list op) (tr : trace) : trace :=
+  match ops, tr with
+  | o :: ops', s :: tr' =>
+      match o with
+      | OBuild _ => if built then provider_steps built ops' tr' else s :: provider_steps true ops' tr'
+      | OCancel _ _ => if built then s :: provider_steps built ops' tr' else provider_steps built ops' tr'
+      | _ => if built && match op_prov o with Some 0 => true | _ => false end
+             then s :: provider_steps built ops' tr' else provider_steps built ops' tr'
+      end
+  | _, _ => []
+  end.
+Definition check_C17 (cs : list (list op * trace)) : list nat * bool * nat :=
+  (map (fun '(o, t) => corr o t) cs,
+   forallb (fun '(o, t) => holds_C17 o t) cs &&
+   match cs with
+   | [(oa, ta); (ob, tb)] => traces_equiv [] [] (provider_steps false oa ta) (provider_steps false ob tb)
+   | _ => true
+   end, 0).
 
 (* C20: module twins — (modules case, flattened twin) *)
 Definition check_C20 (cs : list (list op * trace)) : list nat * bool * nat :=
